@@ -508,6 +508,27 @@ def _unwrap_or_else(ex, callee, argv):
     raise Unsupported("unwrap_or_else on %r" % (o,))
 
 
+def _ref_binop(ex, callee, argv):
+    """operator traits applied through references: <&u64 as Shr<usize>>::shr(&a, b) etc."""
+    m = re.match(r"^<&?(\w+) as (Add|Sub|Mul|Shr|Shl|BitAnd|BitOr|BitXor)<&?(\w+)>>::\w+$", callee)
+    a, b_ = argv[0], argv[1]
+    while isinstance(a, Ref):
+        a = ex.load(a)
+    while isinstance(b_, Ref):
+        b_ = ex.load(b_)
+    op = m.group(2)
+    if op in ("Shr", "Shl"):
+        if not b_.conc() or not (0 <= b_.v < INT_W[m.group(1)]):
+            raise Unsupported("shift through operator trait by a symbolic / out-of-range amount")
+        return ex.binop(op, a, Sc(b_.v, "u32"))
+    if op in ("Add", "Sub", "Mul"):
+        r = ex.binop(op + "WithOverflow", a, b_)
+        ov = r.f[1]
+        ex.ctx.oblige("panic", z3.Not(ex.dom.boolterm(ov)) if not ov.conc() else (not ov.v), "arithmetic overflow in %s" % callee, callee)
+        return r.f[0]
+    return ex.binop(op, a, b_)
+
+
 def _get_or_insert_with(ex, callee, argv):
     """Option::get_or_insert_with(&mut self, f): keep a present value, otherwise store f()"""
     r = argv[0]
@@ -640,6 +661,7 @@ TABLE = [
     (re.compile(r"^<Vec<u8> as WriteBytesExt>::write_u(16|32|64)$"), _write_uN_be),
     (re.compile(r"^<Vec<u8> as WriteBytesExt>::write_u8$"), _write_u8),
     (re.compile(r"^slice::<impl \[Vec<\w+>\]>::concat$"), _concat_vecs),
+    (re.compile(r"^<&?\w+ as (Add|Sub|Mul|Shr|Shl|BitAnd|BitOr|BitXor)<&?\w+>>::\w+$"), _ref_binop),
     (re.compile(r"^Option::unwrap_or_else$"), _unwrap_or_else),
     (re.compile(r"^Option::get_or_insert_with$"), _get_or_insert_with),
     (re.compile(r"^<(Result|Option)<.*> as Try>::branch$"), _try_branch),
